@@ -54,6 +54,38 @@ impl PackageExports {
             fn_bounds: indexmap::IndexMap::new(),
         }
     }
+
+    /// The environment a dependent is checked against: the exported definitions plus the trait
+    /// bounds of the package's generic functions, which its interface records by the names
+    /// written in the package (`Show` in package `Lib` is `Lib::Show` for a dependent).
+    pub fn to_dep_env(
+        &self,
+        package: &str,
+        hir_interface: &crate::hir::PackageInterface,
+    ) -> GlobalTypeEnv {
+        let mut env = self.to_genv();
+        let qualify = |trait_name: &String| -> String {
+            if trait_name.contains("::") || package == "Main" || package == "Builtin" {
+                trait_name.clone()
+            } else {
+                format!("{}::{}", package, trait_name)
+            }
+        };
+        for (function, bounds) in hir_interface.fn_bounds.iter() {
+            // methods of impls are recorded as `impl#<n>::name`: only functions are called by name
+            if function.starts_with("impl#") {
+                continue;
+            }
+            env.fn_bounds.insert(
+                function.clone(),
+                bounds
+                    .iter()
+                    .map(|(param, traits)| (param.clone(), traits.iter().map(qualify).collect()))
+                    .collect(),
+            );
+        }
+        env
+    }
 }
 
 #[derive(Debug, Clone, serde::Serialize, serde::Deserialize)]
